@@ -277,6 +277,8 @@ class FlowIRExperimentConfiguration:
         """
         self.log = logging.getLogger('FlowIRConf')
 
+        # VV: An instance that is loaded without naming a platform uses the platform it was generated for
+        self._platform_not_named = platform is None
         if platform is None:
             platform = experiment.model.frontends.flowir.FlowIR.LabelDefault
 
@@ -473,6 +475,7 @@ class FlowIRExperimentConfiguration:
             experiment.errors.ExperimentInvalidConfigurationError:  If the configuration fails the validation checks
             experiments.errors.ExperimentMissingConfigurationError: If configuration does not exist and validate is True
         """
+        self._platform_not_named = platform is None
         if platform is None:
             platform = experiment.model.frontends.flowir.FlowIR.LabelDefault
 
@@ -928,6 +931,15 @@ class FlowIRExperimentConfiguration:
 
             if platform is None:
                 platform = experiment.model.frontends.flowir.FlowIR.LabelDefault
+
+            if self._is_instance and getattr(self, '_platform_not_named', False):
+                # VV: the instance description records the platform it was generated for (next to `default`)
+                label_default = experiment.model.frontends.flowir.FlowIR.LabelDefault
+                recorded = [x for x in (flowir.get(experiment.model.frontends.flowir.FlowIR.FieldPlatforms) or [])
+                            if x != label_default]
+                if platform == label_default and len(recorded) == 1:
+                    platform = recorded[0]
+                    self._platform = platform
 
             concrete = experiment.model.frontends.flowir.FlowIRConcrete(flowir, platform, self._documents)
         except Exception as e:
